@@ -61,17 +61,53 @@ c23_harness!(c23_first_zeros_aligned_o6, 6);
 // ---------------------------------------------------------------------------------------------
 pub(crate) type Rows = [u64; ROWS];
 
+
+/// Iterate over the rows of a bitfield without a loop (8 rows in the 4K geometry), so that harnesses
+/// can run with an unwinding bound below ROWS; the 16K geometry (32 rows) uses a plain loop.
+#[cfg(not(feature = "16K"))]
+macro_rules! for_rows {
+    ($r:ident, $body:block) => {{
+        { let $r: usize = 0; $body }
+        { let $r: usize = 1; $body }
+        { let $r: usize = 2; $body }
+        { let $r: usize = 3; $body }
+        { let $r: usize = 4; $body }
+        { let $r: usize = 5; $body }
+        { let $r: usize = 6; $body }
+        { let $r: usize = 7; $body }
+    }};
+}
+#[cfg(feature = "16K")]
+macro_rules! for_rows {
+    ($r:ident, $body:block) => {{
+        let mut __r = 0;
+        while __r < ROWS {
+            let $r: usize = __r;
+            $body
+            __r += 1;
+        }
+    }};
+}
+pub(crate) use for_rows;
+/// Eight (or ROWS) independent symbolic rows, built without a loop.
+#[cfg(not(feature = "16K"))]
+pub(crate) fn any_rows() -> Rows {
+    [kani::any(), kani::any(), kani::any(), kani::any(), kani::any(), kani::any(), kani::any(), kani::any()]
+}
+#[cfg(feature = "16K")]
+pub(crate) fn any_rows() -> Rows {
+    kani::any()
+}
+
 pub(crate) fn any_bitfield() -> Bitfield {
     let r: Rows = kani::any();
     bitfield_from(r)
 }
 pub(crate) fn bitfield_from(r: Rows) -> Bitfield {
     let b = Bitfield::default();
-    let mut i = 0;
-    while i < ROWS {
+    for_rows!(i, {
         b.data[i].store(r[i]);
-        i += 1;
-    }
+    });
     b
 }
 pub(crate) fn set_row_raw(b: &Bitfield, r: usize, v: u64) {
@@ -79,11 +115,9 @@ pub(crate) fn set_row_raw(b: &Bitfield, r: usize, v: u64) {
 }
 pub(crate) fn rows_of(b: &Bitfield) -> Rows {
     let mut r = [0u64; ROWS];
-    let mut i = 0;
-    while i < ROWS {
+    for_rows!(i, {
         r[i] = b.data[i].load();
-        i += 1;
-    }
+    });
     r
 }
 /// Spec: an aligned block of 2^order bits inside one bitfield, as (first row, number of rows, mask
@@ -116,15 +150,13 @@ pub(crate) fn block_mask_in_row(bit: usize, order: usize, r: usize) -> u64 {
 /// Spec: every bit of the block equals `val` in `rows`.
 pub(crate) fn blk_all(rows: &Rows, b: &Blk, val: bool) -> bool {
     let mut ok = true;
-    let mut r = 0;
-    while r < ROWS {
+    for_rows!(r, {
         let m = b.mask_in_row(r);
         let want = if val { m } else { 0 };
         if rows[r] & m != want {
             ok = false;
         }
-        r += 1;
-    }
+    });
     ok
 }
 pub(crate) fn block_all(rows: &Rows, bit: usize, order: usize, val: bool) -> bool {
@@ -133,15 +165,13 @@ pub(crate) fn block_all(rows: &Rows, bit: usize, order: usize, val: bool) -> boo
 /// Spec: `new` is `old` with exactly the block's bits set to `val`; every other bit unchanged.
 pub(crate) fn rows_with_blk(old: &Rows, new: &Rows, b: &Blk, val: bool) -> bool {
     let mut ok = true;
-    let mut r = 0;
-    while r < ROWS {
+    for_rows!(r, {
         let m = b.mask_in_row(r);
         let want = if val { old[r] | m } else { old[r] & !m };
         if new[r] != want {
             ok = false;
         }
-        r += 1;
-    }
+    });
     ok
 }
 pub(crate) fn rows_with_block(old: &Rows, new: &Rows, bit: usize, order: usize, val: bool) -> bool {
@@ -149,22 +179,18 @@ pub(crate) fn rows_with_block(old: &Rows, new: &Rows, bit: usize, order: usize, 
 }
 pub(crate) fn rows_eq(a: &Rows, b: &Rows) -> bool {
     let mut ok = true;
-    let mut r = 0;
-    while r < ROWS {
+    for_rows!(r, {
         if a[r] != b[r] {
             ok = false;
         }
-        r += 1;
-    }
+    });
     ok
 }
 pub(crate) fn rows_zeros(a: &Rows) -> usize {
     let mut z = 0usize;
-    let mut r = 0;
-    while r < ROWS {
+    for_rows!(r, {
         z += a[r].count_zeros() as usize;
-        r += 1;
-    }
+    });
     z
 }
 
@@ -344,16 +370,14 @@ fn check_zeros_lemmas<const ORDER: usize>() {
     }
     let mut all0 = true;
     let mut all1 = true;
-    let mut r = 0;
-    while r < ROWS {
+    for_rows!(r, {
         if old[r] != 0 {
             all0 = false;
         }
         if old[r] != u64::MAX {
             all1 = false;
         }
-        r += 1;
-    }
+    });
     clause!((z == Bitfield::LEN) == all0, "Z2: zeros == LEN iff every row is zero");
     clause!((z == 0) == all1, "Z2: zeros == 0 iff every row is all ones");
 }
@@ -394,12 +418,10 @@ impl Bitfield {
         let b = blk(i.0, order);
         let old = rows_of(self);
         if blk_all(&old, &b, expected) {
-            let mut r = 0;
-            while r < ROWS {
+            for_rows!(r, {
                 let m = b.mask_in_row(r);
                 self.data[r].store(if expected { old[r] & !m } else { old[r] | m });
-                r += 1;
-            }
+            });
             Ok(())
         } else {
             Err(Error::Memory)
@@ -413,11 +435,9 @@ impl Bitfield {
             kani::assume(p < Self::LEN && p % (1usize << order) == 0);
             let b = blk(p, order);
             kani::assume(blk_all(&old, &b, false));
-            let mut r = 0;
-            while r < ROWS {
+            for_rows!(r, {
                 self.data[r].store(old[r] | b.mask_in_row(r));
-                r += 1;
-            }
+            });
             Ok(FrameId(p))
         } else {
             let (addr, bit) = unsafe { SFZ_WITNESS };
@@ -437,12 +457,10 @@ fn l1a_zeros_lemma_prefix() {
     let k: usize = kani::any();
     kani::assume(k <= Bitfield::LEN);
     let mut r = [0u64; ROWS];
-    let mut i = 0;
-    while i < ROWS {
+    for_rows!(i, {
         let lo = i * 64;
         r[i] = if k >= lo + 64 { 0 } else if k <= lo { u64::MAX } else { u64::MAX << (k - lo) };
-        i += 1;
-    }
+    });
     clause!(rows_zeros(&r) == k, "Z4: prefix pattern has exactly k zeros");
 }
 
@@ -474,15 +492,13 @@ impl Bitfield {
         let (s, e) = (range.start.0, range.end.0);
         kani::assert(s <= e && e <= Self::LEN && s < Self::LEN, "Bitfield::set precondition: the range lies inside one bitfield");
         let h = ghost_index(self);
-        let mut r = 0;
-        while r < ROWS {
+        for_rows!(r, {
             let lo = if s > r * 64 { s - r * 64 } else { 0 };
             let hi = if e > r * 64 { if e - r * 64 > 64 { 64 } else { e - r * 64 } } else { 0 };
             let m = if hi > lo && lo < 64 { (u64::MAX >> (64 - (hi - lo))) << lo } else { 0 };
             unsafe {
                 G_ROWS[h][r] = if v { G_ROWS[h][r] | m } else { G_ROWS[h][r] & !m };
             }
-            r += 1;
-        }
+        });
     }
 }
